@@ -1,7 +1,13 @@
+data Opt { None, Some(v: i64) }
 def f(a: i64): i64 {
-  let u: i64 = (if a == 0 { 10 } else { 20 }) * 7;
-  let v: i64 = (if u < a { 1 } else { 2 }) + u;
-  (if v == 72 { 3 } else { 4 }) * v
+  let u: i64 = if a == 0 { 10 } else { 20 };
+  let v: i64 = if u < a { u + 1 } else { u + 2 };
+  let o: Opt = if v == 22 { None } else { Some(v) };
+  let w: i64 = o.case { None => u, Some(y) => y + a };
+  let o2: Opt = mk(w);
+  let z: i64 = o2.case { None => w, Some(y2) => y2 + v };
+  (((u * 7) + v) + w) + z
 }
+def mk(a: i64): Opt { if a == 0 { None } else { Some(a + 1) } }
 def main(n: i64): i64 { println_i64(f(n)); println_i64(share_f_0(n)); 0 }
 def share_f_0(a: i64): i64 { a + 1 }
